@@ -220,7 +220,44 @@ class ManyRefs(Fam):
         return core.short_hash(inp)
 
 
-FAMILIES = [Matrix, Pairwise, ManyRefs]
+class LargeN(Fam):
+    """reference collections of thousands of signatures (pool members repeated), long index selections, chunk sizes at and next to
+    powers of two: size thresholds of bulk code paths"""
+    name = 'large-collections'
+    exhaustive = False
+    procs = 4
+
+    def inputs(self, ctx):
+        sizes = [1025, 4100] if ctx.tier == 'quick' else [1025, 4100, 16385, 65537, 70000]
+        self.rule = (f'reference collections of {sizes} signatures (12 distinct pool members incl. empty ones, repeated in seeded random order) x container '
+                     f'{{SignatureArray, SignatureList, HDF5 file}} x chunk size {{None, 1000, 1024, n-1}} x index selection {{None, reversed, 3000 random}} x threads {{1,16}}; '
+                     f'matrix (2-3 queries), one-against-many, and all-pairs (n = 257 quick / 1025 thorough)')
+        rng = ctx.rng.__class__(ctx.seed + 55)
+        pool = [[], [3], [1, 3, 5, 7], [1, 2, 3, 5, 8], [2, 4, 6], [1, 3, 5, 7], list(range(0, 60, 2)), list(range(0, 60, 3)), [], [59], list(range(60)), [0, 59]]
+        for n in sizes:
+            rorder = [rng.randint(1, len(pool)) for _ in range(n)]
+            for ci, cont in enumerate(['array', 'list', 'hdf5']):
+                for chunk in (None, 1000, 1024, n - 1):
+                    for ii, idx in enumerate((None, list(range(n))[::-1], [rng.randrange(n) for _ in range(3000)])):
+                        if (ci + ii + (chunk or 0)) % 2 and ctx.tier == 'quick':
+                            continue
+                        yield dict(op='matrix', pool=pool, q=[3, 7, 1][: 2 + ii % 2], r=rorder, idx=idx, idx_as=('array' if ii == 2 else 'list'), qdtype='u2', rdtype=['u2', 'u4', 'i8'][ci],
+                                   cont=cont, chunk=chunk, threads=[1, 16][(ci + ii) % 2], outbuf='none')
+                yield dict(op='array', pool=pool, q=[4], r=rorder, idx=None, qdtype='u4', rdtype='u2', cont=cont, chunk=None, threads=16, outbuf='given')
+            if n <= 1025:
+                m = 257 if ctx.tier == 'quick' else 1025
+                for cont in ('array', 'list'):
+                    for op in ('square', 'flat'):
+                        yield dict(op=op, pool=pool, q=[], r=rorder[:m], idx=None, idx_as='list', qdtype='u2', rdtype='u2', cont=cont, chunk=None, threads=16, outbuf='none')
+
+    def nontrivial(self, inp, rec):
+        return core.short_hash({k: v for k, v in inp.items() if k not in ('pool', 'r', 'idx')} | dict(n=len(inp['r']), ni=-1 if inp['idx'] is None else len(inp['idx'])))
+
+    def describe(self, inp, rec):
+        return core.canon({k: v for k, v in inp.items() if k not in ('pool', 'r', 'idx')} | dict(n=len(inp['r'])))[:300] + ' ' + rec.get('err', '')
+
+
+FAMILIES = [Matrix, Pairwise, ManyRefs, LargeN]
 
 
 def run(ctx):
